@@ -8,10 +8,18 @@ PROPS = {
                 # the check builds exactly these (props.build_targets): the models the slices evaluate
                 # inside coqc (+ the run machinery for the corpus case of kind `run`), then the theorem
                 # file with everything it depends on and the source-table obligations
-                runtime=["Front/Lexemes.vo", "Front/FrontEnd.vo", "Front/Render.vo", "NetRun.vo", "Monitors.vo"],
-                targets=["Properties/C12.vo", "Gen/ObligationsFront.vo"],
+                runtime=["Front/Lexemes.vo", "Front/FrontEnd.vo", "Front/Render.vo", "Front/CharLexer.vo", "NetRun.vo",
+                         "Monitors.vo"],
+                # C12chars: the character level (Front/CharLexer.v, CharRender.v, CharLexerProofs.v);
+                # ObligationsCharLexer: the rule bodies the character-level lexer hard-codes = PFDLLexer.g4
+                targets=["Properties/C12.vo", "Gen/ObligationsFront.vo", "Properties/C12chars.vo",
+                         "Gen/ObligationsCharLexer.vo"],
+                property_files=("C12chars",),
                 quick=dict(programs=400, insertion_texts=80, positions_per_text=60,
-                           coq_denter=160, coq_frontend=160, coq_render=64),
+                           coq_denter=160, coq_frontend=160, coq_render=64,
+                           # slice F (character-level lexer vs the ANTLR lexer)
+                           chars_rendered=40, chars_illegal=69, chars_mutated=66, chars_random=250),
                 thorough=dict(programs=8000, insertion_texts=1600, positions_per_text=60,
-                              coq_denter=3200, coq_frontend=3200, coq_render=1280)),
+                              coq_denter=3200, coq_frontend=3200, coq_render=1280,
+                              chars_rendered=800, chars_illegal=1380, chars_mutated=1320, chars_random=5000)),
 }
